@@ -452,7 +452,17 @@ class Gen:
     def gen_N(self) -> Optional[dict]:
         """Node-level: raw setters and sequence ops on raw wrappers."""
         rng = self.rng
-        if rng.random() < 0.5:
+        r0 = rng.random()
+        if r0 < 0.07:
+            # only plain repeated wrappers: deep copies of comment-interleaving wrappers are plain wrappers,
+            # so no valid donor for a raw_*_with_comments property can be made through the public API
+            ws = self.wrappers(True, {'raw_repeated'})
+            if ws:
+                ref, owner, m = rng.choice(ws)
+                srcs = [w for w in ws if w[2].name == m.name and w[2].types == m.types]
+                src = rng.choice(srcs)
+                return {'op': 'set_wrapper', 't': {'r': ref['r'], 'p': ref['p'][:-1]}, 'm': m.name, 'v': {'wrapper_copy': src[0]}}
+        if r0 < 0.5:
             return self.gen_seq(raw_only=True)
         safe = self.safe
 
